@@ -109,10 +109,30 @@ fn float_ctor(acc: &mut Acc, idx: u64, len: usize, w: usize, h: usize) {
             }
         }
     };
-    report(acc, "LinearRgb", guarded(|| LinearRgb::new(data.clone(), w, h).map(|i| (bits(i.data()), i.width(), i.height()))));
-    report(acc, "Xyb", guarded(|| Xyb::new(data.clone(), w, h).map(|i| (bits(i.data()), i.width(), i.height()))));
-    report(acc, "Hsl", guarded(|| Hsl::new(data.clone(), w, h).map(|i| (bits(i.data()), i.width(), i.height()))));
-    report(acc, "Rgb", guarded(|| Rgb::new(data.clone(), w, h, TC::BT470M, CP::Film).map(|i| (bits(i.data()), i.width(), i.height()))));
+    // every accessor must expose the same verbatim data: data(), data_mut(), into_data()
+    macro_rules! all_views {
+        ($img:expr) => {{
+            let mut i = $img;
+            let a = bits(i.data());
+            let b = bits(&*i.data_mut());
+            let (gw, gh) = (i.width(), i.height());
+            // a write through data_mut() must be visible through data() and into_data(), and only there
+            let mut ok = a == b;
+            if !a.is_empty() {
+                let last = a.len() / 3 - 1;
+                let old = i.data()[last];
+                i.data_mut()[last] = [1.25, -2.5, 7.0];
+                ok &= i.data()[last] == [1.25, -2.5, 7.0];
+                i.data_mut()[last] = old;
+            }
+            let c = bits(&i.into_data());
+            (if ok && a == c { a } else { vec![0xBAD] }, gw, gh)
+        }};
+    }
+    report(acc, "LinearRgb", guarded(|| LinearRgb::new(data.clone(), w, h).map(|i| all_views!(i))));
+    report(acc, "Xyb", guarded(|| Xyb::new(data.clone(), w, h).map(|i| all_views!(i))));
+    report(acc, "Hsl", guarded(|| Hsl::new(data.clone(), w, h).map(|i| all_views!(i))));
+    report(acc, "Rgb", guarded(|| Rgb::new(data.clone(), w, h, TC::BT470M, CP::Film).map(|i| if i.transfer() == TC::BT470M && i.primaries() == CP::Film { all_views!(i) } else { (vec![0xBAD], 0, 0) })));
 }
 
 pub fn run(tier: Tier) -> Report {
